@@ -136,8 +136,7 @@ def product_work(item):
     rn = nm.get(name)
     acc = core.Acc()
     if rn is not None and rn in tab:
-        ra = ruleinfo.automata(rn)
-        alpha = list(ra.names) + [e2.FOREIGN, e3.disallowed_known(name)]
+        alpha = ruleinfo.names_of(rn) + [e2.FOREIGN, e3.disallowed_known(name)]
         rule_attrs = tab[rn][0]
         valid_attrs = ruleinfo.valid_attrs(rn)
         valid_content = ruleinfo.valid_content(rn)
@@ -208,6 +207,32 @@ def neighbourhood_work(item):
     return acc
 
 
+def pump_work(name):
+    """many children: every self-loop of the rule's automaton taken 65 and 300 times inside an otherwise shortest word
+    (accepted ones and ones made invalid by a trailing foreign child)"""
+    from mc.props import c01
+    acc = core.Acc()
+    rn = ruleinfo.node_mappings().get(name)
+    try:
+        ra = ruleinfo.automata(rn)
+    except Exception:  # noqa
+        return acc
+    n = 0
+    for w in c01.pump_words(ra, counts=(65, 300)):
+        spec = [name, ruleinfo.valid_content(rn), ruleinfo.valid_attrs(rn), [[x, None, {}, []] for x in w]]
+        core.reset_store()
+        root = witness.build(spec)
+        n += 1
+        loops = sorted(set(x for x in w if w.count(x) >= 65))
+        case = {"kind": "pump", "element": name, "repeated": loops, "length": len(w), "spec": None}
+        probs = check_tree(root, case, acc)
+        if probs:
+            acc.add_problems(probs)
+    acc.count("trees", n)
+    acc.count("pumped_trees", n)
+    return acc
+
+
 def chain_spec(name, depth, bottom_fault):
     nm = ruleinfo.node_mappings()
     rn = nm.get(name)
@@ -254,9 +279,9 @@ def plan(tier):
         rn = nm.get(name)
         big = False
         if rn in ruleinfo.table():
-            big = len(ruleinfo.automata(rn).names) > 12
+            big = len(ruleinfo.names_of(rn)) > 12
         if big and tier == "thorough":
-            alpha = list(dict.fromkeys(list(ruleinfo.automata(rn).names) + [e2.FOREIGN, e3.disallowed_known(name)]))
+            alpha = list(dict.fromkeys(ruleinfo.names_of(rn) + [e2.FOREIGN, e3.disallowed_known(name)]))
             items.append(("product", (tier, name, "")))
             for a in alpha:
                 items.append(("product", (tier, name, a)))
@@ -278,6 +303,10 @@ def plan(tier):
     step = 100
     for lo in range(0, total, step):
         items.append(("nbh", (tier, "tests/data/eml.xml", eml, 1, eml_menu, False, lo, min(total, lo + step))))
+    # 2b. many children (65 and 300 repetitions of every repeatable child)
+    for name in sorted(nm):
+        if nm[name] in ruleinfo.table() and name != "metadata":
+            items.append(("pump", name))
     # 3. chains
     for name in ("taxonomicClassification", "section", e3.UNKNOWN):
         for depth in (1, 10, 50, 100):
@@ -292,11 +321,16 @@ def work(item):
         return product_work(payload)
     if kind == "nbh":
         return neighbourhood_work(payload)
+    if kind == "pump":
+        return pump_work(payload)
     return chain_work(payload)
 
 
 def replay(case):
     core.reset_store()
+    if case["kind"] == "pump":
+        a = pump_work(case["element"])
+        return [p for ps in a.problems.values() for p in ps if p["case"].get("repeated") == case.get("repeated") and p["case"].get("length") == case.get("length")]
     if case["kind"] == "chain":
         spec = chain_spec(case["element"], case["depth"], case["bottom_fault"])
     elif case.get("spec") is not None:
